@@ -30,7 +30,8 @@ NEEDS_DEPS = True
 SHARDS = {"quick": 16, "thorough": 16}
 FLOOR = {"quick": 900, "thorough": 20000}
 REQUIRED_COUNTERS = ["law_decode_checks", "law_encode_checks", "failure_injections", "serializer_contract_evals",
-                     "cyclic_graphs", "order_comparisons", "trees_with_meta", "partial_documents"]
+                     "cyclic_graphs", "order_comparisons", "trees_with_meta", "partial_documents", "modules_with_postponed_annotations",
+                     "modules_with_quoted_annotations", "trees_with_nullable_field_defaulting_to_a_value"]
 RULE = ("random dataclass type trees (depth<=4; list/dict/Optional/nested dataclass; leaves str,int,float,bool,bytes,datetime,date; "
         "Meta maps none/bijective/keyword-like/case-fold-colliding) as imported source modules x random instances; each batch in "
         "3 first-use orders in fresh processes; a case = (tree, instance, law); non-trivial = instance has a nested container, "
@@ -42,6 +43,9 @@ LEAVES = ["str", "int", "float", "bool", "bytes", "datetime", "date", "time", "U
 ENUMS = {"Colour": ("str", [("RED", "red"), ("DARK_BLUE", "dark-blue"), ("EMPTY", ""), ("NULLISH", "null")]),
          "Level": ("int", [("LOW", 0), ("HIGH", 10), ("NEG", -1)])}
 KEYWORDISH = ["class", "from", "id", "type", "import", "return", "def", "pass"]
+
+
+LITERAL_DEFAULTS = {"int": "3", "str": "'dflt'", "bool": "True", "float": "1.5"}
 
 
 # ------------------------------------------------------------------ type-tree generation (harness side, no repo code)
@@ -85,7 +89,10 @@ def gen_class(rng, depth: int, classes: list[dict], prefix: str) -> str:
         else:  # casefold collisions: userId / userid / USERID
             wire = ["userId", "userid", "USERID", "UserId"][i]
         has_default = ft["k"] in ("opt", "list", "dict") and rng.random() < 0.6
-        cls["fields"].append({"py": py, "wire": wire, "t": ft, "default": has_default})
+        fld = {"py": py, "wire": wire, "t": ft, "default": has_default}
+        if has_default and ft["k"] == "opt" and ft["of"]["k"] == "leaf" and ft["of"]["t"] in LITERAL_DEFAULTS and rng.random() < 0.5:
+            fld["dv"] = LITERAL_DEFAULTS[ft["of"]["t"]]     # a nullable field whose declared default is NOT None
+        cls["fields"].append(fld)
     if cls["meta"] == "swap":
         # a bijective map in which each wire key is spelled like ANOTHER field's Python name (cyclic shift): renaming
         # must be simultaneous, not one key after the other
@@ -111,8 +118,10 @@ def render_type(t: dict) -> str:
     return t["name"]
 
 
-def render_module(classes: list[dict]) -> str:
-    out = ["from dataclasses import dataclass, field", "from datetime import date, datetime, time",
+def render_module(classes: list[dict], annotations: str = "eager") -> str:
+    """annotations: 'eager' (evaluated at class creation), 'postponed' (PEP 563: every annotation is source text) or 'quoted'
+    (fields with defaults spell their annotation as a string literal)."""
+    out = (["from __future__ import annotations"] if annotations == "postponed" else []) + ["from dataclasses import dataclass, field", "from datetime import date, datetime, time",
            "from enum import Enum", "from typing import Any, Dict, List, Optional", "from uuid import UUID", ""]
     # enum leaves are declared the way generated clients declare them: a str / int mixin
     for en, (base, members) in ENUMS.items():
@@ -125,7 +134,8 @@ def render_module(classes: list[dict]) -> str:
             if not f["default"]:
                 out.append(f"    {f['py']}: {ty}")
             elif f["t"]["k"] == "opt":
-                out.append(f"    {f['py']}: {ty} = None")
+                q = '"' if annotations == "quoted" else ""
+                out.append(f"    {f['py']}: {q}{ty}{q} = {f.get('dv', 'None')}")
             elif f["t"]["k"] == "list":
                 out.append(f"    {f['py']}: {ty} = field(default_factory=list)")
             else:
@@ -530,7 +540,11 @@ def run_shard(ctx: Ctx) -> None:
             prefix = f"S{ctx.shard}B{b}T{ti}"
             root = gen_class(rng, rng.randint(1, 4), classes, prefix)
             modname = f"vmon_types_{prefix.lower()}"
-            (moddir / f"{modname}.py").write_text(render_module(classes))
+            ann = rng.choice(["eager", "eager", "postponed", "quoted"])
+            rec.count(f"modules_with_{ann}_annotations")
+            (moddir / f"{modname}.py").write_text(render_module(classes, ann))
+            if any("dv" in f for c in classes for f in c["fields"]):
+                rec.count("trees_with_nullable_field_defaulting_to_a_value")
             cmap = {c["name"]: c for c in classes}
             if any(c["meta"] != "none" for c in classes):
                 rec.count("trees_with_meta")
@@ -539,7 +553,7 @@ def run_shard(ctx: Ctx) -> None:
                 py, js, nontriv = gen_value(rng, {"k": "dc", "name": root}, cmap)
                 case = {"module": modname, "cls": root, "py": py, "json": js, "tree": prefix, "nontrivial": nontriv}
                 rootc = cmap[root]
-                dflt = [f for f in rootc["fields"] if f["default"]]
+                dflt = [f for f in rootc["fields"] if f["default"] and "dv" not in f]     # (omit only keys whose default is None / [] / {})
                 if dflt and rng.random() < 0.5:
                     drop = [f for f in dflt if rng.random() < 0.7] or dflt[:1]
                     pj = {k: v for k, v in js.items() if k not in {f["wire"] for f in drop}}
